@@ -11,6 +11,9 @@ CTX_PROGS = ['a.$substringBefore("-")', 'list.s.$substringAfter("-")', '$pad(?, 
              '$replace(a, /-/, "+")', 'a ~> $replace("-", "+", 1)', 'a ~> $replace("-", "+")', 'a ~> $substring(1, 3)', 'nums ~> $reduce(function($p,$q){$p+$q}, 100)',
              '($f := function($a,$b,$c,$d){[$a,$b,$c,$d]}; a ~> $f(10, 20, 30))', '($f := function($a,$b,$c,$d,$e,$g){$a & $b & $c & $d & $e & $g}; a ~> $f(1,2,3,4,5))',
              '($f := function($a,$b,$c,$d,$e,$g,$h){$a & $g & $h}; a ~> $f(1,2,3,4,5,6))', '($f := function($a,$b,$c,$d,$e,$g,$h,$i){$a & $h & $i}; a ~> $f(1,2,3,4,5,6,7))', 'a ~> $pad(20, "#") ~> $replace("#", "=", 2)', '( $f := function($x){$x * 2}; nums.$f($) )', '$reduce(nums, function($p,$q){$p + $q})', '$string($) & $string($)', '$keys($)',
+             # groupings and constructors whose member values ARE the grouped items (not aggregates of them)
+             'list{s: $}', 'list{s: [$]}', 'list{s: $.s}', 'nums{$string($ % 2): $}', 'nums{$string($ % 3): [$, $count($)]}', 'list{$substringBefore(s, "-"): $}', '$ ~> |list|{"grp": $$.list{s: $}}|',
+             '(nums{$string($ % 2): $}).*', 'nums{$string($ > 4): $}.`true`', 'list{s: ($g := $; $g)}', 'list{s: function(){$}}.*()' ,
              # the same picture under different decimal formats, the same built-in under different options
              '$formatNumber(-1.5, "0.0")', '$formatNumber(-1.5, "0.0", {"minus-sign": "m"})', '$formatNumber(-1.5, "0.0", {"minus-sign": "~"})', '$formatNumber(1234.5, "0,0")',
              '$formatNumber(1234.5, "0,0", {"decimal-separator": ",", "grouping-separator": "."})', '$formatNumber(0.25, "0%")', '$formatNumber(0.25, "0%", {"percent": "p"})', '$formatNumber(0.25, "0p", {"percent": "p"})',
@@ -76,7 +79,7 @@ def hist_vs_model(ck, part, res):
             if not e or not e.get('model') or e['model'].startswith('X') or 'S756e6d6f64656c6c6564' in e['model']:
                 continue
             ck.stats['history_steps_vs_model'] += 1
-            if project(got) != project(e['model']) and not (got.startswith('P') or '{' in c['expr'] or outside_model(c, {'impl': got, 'model': e['model']})):
+            if project(got) != project(e['model']) and not (got.startswith('P') or ('{' in c['expr'] and (got.startswith('E') or e['model'].startswith('E'))) or outside_model(c, {'impl': got, 'model': e['model']})):
                 ck.failing_case(c, r, 'direct:history-vs-model: step %d gives %s, the model (stateless) gives %s' % (i, got[:80], e['model'][:80]))
 
 def run(tier, seed, replay=None):
